@@ -9,12 +9,20 @@ use crate::{
 use byteorder::{LittleEndian, ReadBytesExt};
 use std::path::Path;
 
-pub fn get_current_version(folder: &std::path::Path) -> crate::Result<VersionId> {
+pub fn get_current_version(folder: &std::path::Path) -> crate::Result<(VersionId, Checksum)> {
     use byteorder::{LittleEndian, ReadBytesExt};
 
-    std::fs::File::open(folder.join(CURRENT_VERSION_FILE))
-        .and_then(|mut f| f.read_u64::<LittleEndian>())
-        .map_err(Into::into)
+    let mut f = std::fs::File::open(folder.join(CURRENT_VERSION_FILE))?;
+
+    let version_id = f.read_u64::<LittleEndian>()?;
+    let checksum = f.read_u128::<LittleEndian>()?;
+    let checksum_type = f.read_u8()?;
+
+    if checksum_type != 0 {
+        return Err(crate::Error::InvalidTag(("ChecksumType", checksum_type)));
+    }
+
+    Ok((version_id, Checksum::from_raw(checksum)))
 }
 
 pub struct RecoveredTable {
@@ -32,10 +40,21 @@ pub struct Recovery {
 }
 
 pub fn recover(folder: &Path) -> crate::Result<Recovery> {
-    let curr_version_id = get_current_version(folder)?;
+    let (curr_version_id, expected_checksum) = get_current_version(folder)?;
     let version_file_path = folder.join(format!("v{curr_version_id}"));
 
-    // TODO: maybe validate current version using the checksum in "current"
+    // Validate the version file using the checksum stored in "current"
+    {
+        let bytes = std::fs::read(&version_file_path)?;
+        let checksum = Checksum::from_raw(xxhash_rust::xxh3::xxh3_128(&bytes));
+
+        checksum.check(expected_checksum).inspect_err(|_| {
+            log::error!(
+                "version file {} does not match the checksum in the current version pointer - the file is corrupted",
+                version_file_path.display(),
+            );
+        })?;
+    }
 
     log::info!(
         "Recovering current manifest at {}",
